@@ -132,8 +132,8 @@ theorem safeNode_called_iff_locked :
       "if b.HighQC != nil { if err := b.SafeNode(msg); err != nil { b.RoundInterrupt(); return } }" := by decide
 
 /-- a lock is only replaced by a certificate that `View.Less` puts strictly above it -/
-theorem adoptHigher_monotone (lock new : Gen.Bft.View)
-    (hh : lock.Height = new.Height) (hp : lock.Phase = new.Phase) (h : adoptHigher true lock new = true) :
+theorem adoptHigher_monotone (lock new voteHdr : Gen.Bft.View)
+    (hh : lock.Height = new.Height) (hp : lock.Phase = new.Phase) (h : adoptHigher true lock new voteHdr = true) :
     lock.RootHeight < new.RootHeight ∨ (lock.RootHeight = new.RootHeight ∧ lock.Round < new.Round) := by
   unfold adoptHigher at h
   simp at h
@@ -218,7 +218,7 @@ theorem genUnlock_lt (w y : Bft.View) (h : genUnlock w y = true) : w < y :=
   safeNodeUnlock_monotone (hdrOf w phase_PROPOSE_VOTE) (hdrOf y phase_PROPOSE_VOTE) rfl rfl h
 
 theorem genAdoptOk_lt (w y : Bft.View) (h : genAdoptOk w y = true) : w < y :=
-  adoptHigher_monotone (hdrOf w phase_PROPOSE_VOTE) (hdrOf y phase_PROPOSE_VOTE) rfl rfl h
+  adoptHigher_monotone (hdrOf w phase_PROPOSE_VOTE) (hdrOf y phase_PROPOSE_VOTE) _ rfl rfl h
 
 theorem genCertBound_binds (q : Bft.View) (qp : Bool) (v : Bft.View) (h : genCertBound q qp v = true) :
     q = v ∧ qp = true := by
